@@ -24,8 +24,7 @@ MUTATIONS = {
                                              "            if sequence is not None and location.end > len(sequence) + 1:"),
     "c19-unique-value-first-wins": (["C19"], PA, '        raise ParentException(f"Multiple distinct non-null values were provided: {values}")', "        return sorted(values)[0]"),
     "c19-sequence-no-alphabet-check": (["C19"], SQ, '            raise AlphabetError("Invalid sequence for alphabet {}".format(alphabet.name))', "            pass"),
-    "c19-sequence-no-parent-length-check": (["C19"], SQ, "        if validate_parent and self.parent and self.parent.location and len(self.parent.location) != len(self):",
-                                            "        if validate_parent and self.parent and self.parent.location and len(self.parent.location) < len(self):"),
+    "c19-sequence-no-parent-length-check": (["C19"], SQ, "location) != len(self):", "location) < len(self):"),
     "c19-cds-no-frame-count-check": (["C19"], C, '            raise MismatchedFrameException("Number of frame or phase entries must match number of exons")', "            pass"),
     "c19-cds-mixed-frame-phase-accepted": (["C19"], C, "            if is_frame and isinstance(frame_or_phase, CDSPhase):", "            if not is_frame and isinstance(frame_or_phase, CDSPhase):"),
     "c19-cds-empty-accepted": (["C19"], C, '            raise InvalidCDSIntervalError("Cannot have an empty CDS interval")', "            pass"),
@@ -58,6 +57,18 @@ MUTATIONS = {
     "c19-scan-windows-range-overrun": (["C19"], LO, "        for curr_start in range(start_pos, len(self) - window_size + 1, step_size):",
                                        "        for curr_start in range(start_pos, len(self) - window_size + 2, step_size):"),
     "c19-scan-windows-zero-step-accepted": (["C19"], LO, "        if min(window_size, step_size) < 1:", "        if window_size < 1:"),
+    # ---- "falsy but not None" / "same id, different content" (seeded changes C19-1..3 and their siblings) -------------
+    "c19-parent-bound-check-truthiness": (["C19"], PA, "            if sequence is not None and location.end > len(sequence):", "            if sequence and location.end > len(sequence):"),
+    "c19-from-single-intervals-ids-only": (["C19"], L, "            interval.parent.strip_location_info() if interval.parent else None for interval in intervals",
+                                           "            interval.parent_id for interval in intervals"),
+    "c19-equals-except-location-ignores-sequence": (["C19"], PA, "        if require_same_sequence and self.sequence != other.sequence:", "        if require_same_sequence and self.sequence is None != other.sequence is None:"),
+    "c19-equals-except-location-ignores-type": (["C19"], PA, "        if self.sequence_type != other.sequence_type:\n            return False\n", ""),
+    "c19-equals-except-location-ignores-grandparent": (["C19"], PA, "        if self.parent and other.parent and self.parent != other.parent:", "        if self.parent and other.parent and self.parent.id != other.parent.id and False:"),
+    "c19-query-start-or-default": (["C19"], A, "        start = self.start if start is None else start", "        start = start or self.start"),
+    "c19-collection-start-truthiness": (["C19"], A, "        elif end is None and start is not None:", "        elif end is None and start:"),
+    "c19-sequence-parent-length-check-empty-data": (["C19"], SQ, "        self._len = len(self.sequence)\n", "        self._len = len(self.sequence)\n        validate_parent = validate_parent and self._len > 0\n"),
+    "c19-unique-value-skips-falsy": (["C19"], PA, "    values = {x for x in values if x is not None}", "    values = {x for x in values if x}"),
+    "c19-variant-zero-zero-accepted": (["C19"], V, "        if start == end:\n            raise EmptyLocationException(", "        if start and start == end:\n            raise EmptyLocationException("),
     # ---- lookups that only the API sweep drives (unknown guid) -------------------------------------------------------
     "c19-collection-guid-lookup-unguarded": (["C19"], A, "            child = self.guid_map.get(i)\n", "            child = self.guid_map[i]\n"),
     "c19-gene-guid-lookup-unguarded": (["C19"], G, "        txs = [self.guid_map[i] for i in ids if i in self.guid_map]", "        txs = [self.guid_map[i] for i in ids]"),
